@@ -2,4 +2,4 @@
    (what the Writer emits decodes under the specification decoder to exactly the forest written);
    the reader half (reader model over the writer's encodings) is Props/C01bin.v when present;
    the text Writer's finite-universe round trip is in Props/C12text.v.  Statements are re-exported. *)
-From IonV Require Export Props.C04bin Props.C12text.
+From IonV Require Export Props.C04bin Props.C01bin Props.C12text.
